@@ -208,8 +208,9 @@ def correspond_heuristic(res, drv, case, form, rnd_label):
                          ([x for x in b if x not in a][:3], [n for n in m["g"]["nodes"] if n not in g["nodes"]][:2]))
             return
         sol = [F(v) for v in np.asarray(o.feasible_solution).ravel()]
-        if sol != m["sol"]:
-            res.disagree(f"{form} stored solution", sol, m["sol"])
+        msol = FU.vec_to_impl(FU.var_order(drv, o, form), m["sol"])       # (in the implementation's variable numbering)
+        if sol != msol:
+            res.disagree(f"{form} stored solution", sol, msol)
         if form == "seq" and (int(o.max_vehicles), [F(c) for c in o.vehicle_cost]) != (m["V"], m["vcost"]):
             res.disagree("seq vehicles after the heuristic", (int(o.max_vehicles), [F(c) for c in o.vehicle_cost]), (m["V"], m["vcost"]))
         if form == "path" and ([[int(i) for i in r] for r in o.routes], [F(c) for c in o.route_costs]) != (m["pool"], m["costs"]):
